@@ -30,6 +30,8 @@ ASSUMPTIONS = [
     'components are the instrumented ones of harness/c13/app.py; thread independence is tested (soak), not proved',
     'a finished callback that itself raises stops the remaining finished callbacks (documented behaviour): the callback '
     'clause of the property is only judged for scenarios without a raising finished callback',
+    'callbacks may register callbacks of their own kind; each registration entry of a callback fires once (it names the '
+    'running number of the callback that makes it), so chains are bounded',
 ]
 TRUSTED = ['Python-ast -> stmt translator harness/c13/translate.py (fail-closed; bindings table written by hand)',
            'hand-written pipeline model coq/Model/C13.v part (b) (shape-pinned functions, differential correspondence)',
@@ -86,7 +88,12 @@ from harness.c13 import scopes as SC   # noqa: E402  (no pyramid import at modul
 
 POINTS = list(range(1, 21))
 MAY_FALSE = (4, 10, 11)
-REG_PATTERNS = [[], [[1, 3], [12, 3]], [[3, 3], [19, 3], [20, 3], [16, 2], [12, 1]]]
+# [point, which (1 response / 2 finished / 3 both), n]: n only matters at the callback points 16/18 -- the
+# registration is made by the n-th callback of that kind to run, so chains of callbacks registering
+# callbacks of their own kind are possible and bounded
+REG_PATTERNS = [[],
+                [[1, 3, 0], [12, 3, 0], [18, 2, 0], [16, 1, 0]],
+                [[3, 3, 0], [19, 3, 0], [20, 3, 0], [16, 2, 0], [12, 1, 0], [18, 2, 1], [18, 2, 2], [16, 3, 1]]]
 
 
 def scn(route=0, faults=(), regs=(), sub=None):
@@ -146,8 +153,8 @@ def enumerate_pairs():
             for a in fs:
                 for b in fs:
                     yield {'t': 'req', 'excview': mask,
-                           'scn': scn(1, [a], [[1, 3], [12, 2]],
-                                      {'tweens': tw, 'scn': scn(0, [b], [[3, 3], [12, 3]])})}
+                           'scn': scn(1, [a], [[1, 3, 0], [12, 2, 0], [18, 2, 0]],
+                                      {'tweens': tw, 'scn': scn(0, [b], [[3, 3, 0], [12, 3, 0], [16, 1, 0]])})}
 
 
 def enumerate_scopes():
@@ -162,14 +169,9 @@ def rand_scn(rng, depth):
         k = rng.choice([1, 2, 3, 4] if p in MAY_FALSE else [1, 2, 3])
         faults.append([p, k, rng.choice([0, 0, 1, 2]) if p in (16, 18) else 0])
     regs = []
-    for _ in range(rng.choice([0, 1, 2, 3, 4])):
-        p = rng.choice(POINTS)
-        w = rng.choice([1, 2, 3])
-        if p == 16:
-            w = 2
-        if p == 18:
-            w = 1
-        regs.append([p, w])
+    for _ in range(rng.choice([0, 1, 2, 3, 4, 5])):
+        p = rng.choice(POINTS + [16, 18, 18])
+        regs.append([p, rng.choice([1, 2, 3]), rng.choice([0, 0, 1, 2]) if p in (16, 18) else 0])
     sub = None
     if depth > 0 and rng.random() < 0.55:
         sub = {'tweens': rng.choice([0, 1]), 'scn': rand_scn(rng, depth - 1)}
@@ -192,8 +194,8 @@ def generate(rng, tier, n):
             for p in POINTS:
                 for kind in (1, 2, 3):
                     yield {'t': 'req', 'excview': ev,
-                           'scn': scn(1, [], [[1, 3], [12, 2]],
-                                      {'tweens': tw, 'scn': scn(0, [[p, kind, 0]], [[3, 3], [12, 3]])})}
+                           'scn': scn(1, [], [[1, 3, 0], [12, 2, 0], [18, 2, 0]],
+                                      {'tweens': tw, 'scn': scn(0, [[p, kind, 0]], [[3, 3, 0], [12, 3, 0], [16, 1, 0]])})}
                     k += 1
     m = max(0, n - len(fixed) - k)
     for _ in range(m):
@@ -211,10 +213,8 @@ def _valid_scn(s, depth):
         if f[1] == 4 and f[0] not in MAY_FALSE:
             return False
     for r in s['regs']:
-        if not (isinstance(r, list) and len(r) == 2 and r[0] in POINTS and r[1] in (1, 2, 3)):
+        if not (isinstance(r, list) and len(r) == 3 and r[0] in POINTS and r[1] in (1, 2, 3) and 0 <= r[2] < 8):
             return False
-        if (r[0] == 16 and r[1] & 1) or (r[0] == 18 and r[1] & 2):
-            return False            # a callback that re-registers its own kind never terminates
     if len(s['regs']) > 12 or len(s['faults']) > 8:
         return False
     if s['sub'] is not None:
@@ -247,6 +247,11 @@ def shrinks(case):
             yield dict(s, faults=s['faults'][:i] + s['faults'][i + 1:])
         for i in range(len(s['regs'])):
             yield dict(s, regs=s['regs'][:i] + s['regs'][i + 1:])
+        for i, r in enumerate(s['regs']):
+            if r[2]:
+                yield dict(s, regs=s['regs'][:i] + [[r[0], r[1], 0]] + s['regs'][i + 1:])
+            if r[1] == 3:
+                yield dict(s, regs=s['regs'][:i] + [[r[0], 2, r[2]]] + s['regs'][i + 1:])
         for i, f in enumerate(s['faults']):
             if f[1] != 1 and f[1] != 4:
                 yield dict(s, faults=s['faults'][:i] + [[f[0], 1, f[2]]] + s['faults'][i + 1:])
@@ -451,6 +456,10 @@ def kinds(case, obs):
         k.append('finished-callback-ran')
     if any(e[1] > 0 for e in obs[2]):
         k.append('subrequest-ran')
+    if any(e[0] == 18 and e[4] == 18 for e in obs[2]):
+        k.append('finished-callback-registered-by-finished-callback-ran')
+    if any(e[0] == 16 and e[4] == 16 for e in obs[2]):
+        k.append('response-callback-registered-by-response-callback-ran')
     return k
 
 
